@@ -125,7 +125,7 @@ HelperOK(r) ==
          /\ out[3] = out[2]                                       \* idempotent
          /\ out[4] = 1 /\ out[5] = 1 /\ out[6] = 1 /\ out[7] = 1  \* transparent to Is / As / Unwrap
     \* ---- xrand: min(k, n) items from pairwise distinct positions; Shuffle is a permutation
-    [] fn \in {"Sample", "SampleSlice", "SampleIterator"} -> NoPanic(r) /\ Len(out) = Min(Max(r.y, 0), r.x) /\ r.r = 1
+    [] fn \in {"Sample", "SampleSlice", "SampleIterator", "SampleStream"} -> NoPanic(r) /\ Len(out) = Min(Max(r.y, 0), r.x) /\ r.r = 1
     [] fn = "Shuffle" -> NoPanic(r) /\ Len(out) = r.x /\ r.r = 1 /\ Range(out) = 0..(r.x - 1)
 
 VARIABLE l
